@@ -2,20 +2,32 @@
 // (property C06: "the privileged entry points of the bridge's system contracts ... can be exercised only by the
 // chain's own modules") -> Gen/ModCallsGen.v
 //
-// Sources (relative to -repo): every non-test .go file of x/xibc/keeper, x/xibc/core/packet/keeper and
-// x/aggregate/keeper, plus x/xibc/core/packet/types/keys.go and x/aggregate/types/keys.go (the definitions of the two
-// module addresses).
+// The inventory is NORMALISED: a sorted, duplicate-free list of triples (from, target, method) — who calls which contract
+// with which method — obtained by following calls INTERPROCEDURALLY inside the repo, so that a behaviour-preserving
+// restructuring of the Go code (a wrapper more or less, CallPacket delegating to CallEVM, a helper that takes the method
+// name as a parameter, a named constant for a method) regenerates the SAME term.  The Go functions in which the resolved
+// calls originate are listed in comments only.
 //
-// Inventory entry = one call expression `<recv>.CallPacket(ctx, "method", args...)`,
-// `<recv>.CallEVMWithData(ctx, from, target, data)` or `<recv>.CallEVM(ctx, abi, from, contract, "method", args...)`:
-// file, enclosing function, kind, the FROM expression and the TARGET expression with their package qualifier resolved
-// through the file's imports (e.g. `types.ModuleAddress` in x/aggregate/keeper -> `x/aggregate/types.ModuleAddress`),
-// and the method names: the string literal for CallPacket / CallEVM; for CallEVMWithData every string literal passed as
-// first argument to a `.Pack(` call in the same function (the payload builders).
+// Sources (relative to -repo): every non-test .go file under x/ and app/ (not: testing/, simulation/, client/cli), plus
+// x/xibc/core/packet/types/keys.go and x/aggregate/types/keys.go (the definitions of the two module addresses).
 //
-// A CallPacket / CallEVM method argument that is not a string literal is recorded as "?<expression>" (no method of any
-// ABI has that name, so the obligation over the inventory fails — for C06 only).
-// Outside the subset (=> exit 1): a call with too few arguments; a module-address definition that is not
+// Method (go/ast only, no type information; functions are identified by package directory + name):
+//   - PRIMITIVE: a call of a function named CallEVMWithData(ctx, from, target, data).
+//   - symbolic evaluation of an argument inside a function body: string literal; package-qualified name (resolved through
+//     the file's imports, module prefix stripped, a leading & dropped); package-level string constant / single-initialiser
+//     variable of the same package (resolved recursively); parameter of the enclosing function (symbolic); local variable
+//     (every assignment to it is evaluated: several alternatives give several triples); anything else: unknown "?text".
+//     The METHOD of a data argument is the first argument of the `.Pack(` call that produced the data value.
+//   - a function whose primitive / wrapper calls still depend on its own parameters is a WRAPPER with a summary
+//     (from, target, method as functions of its parameters); a call of a wrapper substitutes the actual arguments
+//     (evaluated in the caller) — iterated to a fixpoint, so chains such as CallPacket -> CallEVM -> CallEVMWithData resolve.
+//   - a call whose triple no longer depends on parameters is an inventory entry.
+//   - a callee name is resolved in the caller's package first, otherwise it must be unique among the scanned packages;
+//     an ambiguous name that matches a wrapper yields "?ambiguous:<name>" components.
+//
+// What cannot be traced stays in the inventory as a "?..." component: the obligation C06_module_calls_ok then fails if the
+// target is (or may be) the packet or endpoint contract — for C06 only; the translator itself exits non-zero only on a
+// parse error or on a module-address definition outside its subset:
 // `ModuleAddress = common.BytesToAddress(authtypes.NewModuleAddress(<Const>).Bytes())` with <Const> a string constant of
 // the same file.
 package main
@@ -36,10 +48,16 @@ import (
 )
 
 const modPrefix = "github.com/teleport-network/teleport/"
+const primitive = "CallEVMWithData"
 
 func die(f string, a ...interface{}) {
 	fmt.Fprintf(os.Stderr, "modcalls: "+f+"\n", a...)
 	os.Exit(1)
+}
+
+// text placed inside a Coq comment must not open or close one
+func inComment(s string) string {
+	return strings.ReplaceAll(strings.ReplaceAll(s, "(*", "( *"), "*)", "* )")
 }
 
 func coqBytes(s string) string {
@@ -53,38 +71,43 @@ func coqBytes(s string) string {
 	return "[" + strings.Join(parts, ";") + "]"
 }
 
-var dirs = []string{"x/xibc/keeper", "x/xibc/core/packet/keeper", "x/aggregate/keeper"}
 var addrFiles = []string{"x/xibc/core/packet/types/keys.go", "x/aggregate/types/keys.go"}
 
-type call struct {
-	file, fn string
-	kind     int // 0 CallPacket, 1 CallEVMWithData, 2 CallEVM
-	from     string
-	target   string
-	methods  []string
+// ---------------------------------------------------------------------------------------------
+// symbolic values
+
+type sym struct {
+	param int    // >= 0: the enclosing function's parameter with that index (text unused)
+	data  bool   // (param only) the METHOD packed into that data parameter is meant
+	text  string // concrete text, or "?..." for unknown
 }
 
-func exprText(fset *token.FileSet, e ast.Expr) string {
+func conc(s string) sym { return sym{param: -1, text: s} }
+func unk(s string) sym  { return sym{param: -1, text: "?" + s} }
+
+type effect struct{ from, target, method sym }
+
+type fn struct {
+	pkg, name, file string
+	decl            *ast.FuncDecl
+	params          []string
+	imports         map[string]string
+	summary         []effect // effects that still depend on parameters
+}
+
+type pkgInfo struct {
+	consts map[string]ast.Expr // package-level const / single-initialiser var: name -> initialiser
+	cfile  map[string]*fn      // imports context for the initialiser (a pseudo fn carrying the file's imports)
+}
+
+var fset = token.NewFileSet()
+var funcs = map[string][]*fn{} // name -> definitions
+var pkgs = map[string]*pkgInfo{}
+
+func exprText(e ast.Expr) string {
 	var b bytes.Buffer
 	printer.Fprint(&b, fset, e)
-	return b.String()
-}
-
-// resolve `pkg.Name` / `&pkg.Name` through the import table of the file; other expressions are returned as written
-func resolve(fset *token.FileSet, e ast.Expr, imports map[string]string) string {
-	pre := ""
-	if u, ok := e.(*ast.UnaryExpr); ok && u.Op == token.AND {
-		e = u.X
-		pre = "&"
-	}
-	if s, ok := e.(*ast.SelectorExpr); ok {
-		if id, ok := s.X.(*ast.Ident); ok {
-			if p, ok := imports[id.Name]; ok {
-				return pre + strings.TrimPrefix(p, modPrefix) + "." + s.Sel.Name
-			}
-		}
-	}
-	return pre + exprText(fset, e)
+	return strings.Join(strings.Fields(b.String()), " ")
 }
 
 func strLit(e ast.Expr) (string, bool) {
@@ -97,6 +120,229 @@ func strLit(e ast.Expr) (string, bool) {
 	return "", false
 }
 
+// assignments to a local identifier inside f's body: the RHS expressions (tuple assignment from one call: that call)
+func assignments(f *fn, name string) []ast.Expr {
+	var out []ast.Expr
+	ast.Inspect(f.decl.Body, func(nd ast.Node) bool {
+		switch s := nd.(type) {
+		case *ast.AssignStmt:
+			for i, l := range s.Lhs {
+				if id, ok := l.(*ast.Ident); ok && id.Name == name {
+					if len(s.Rhs) == len(s.Lhs) {
+						out = append(out, s.Rhs[i])
+					} else if len(s.Rhs) == 1 && i == 0 {
+						out = append(out, s.Rhs[0])
+					} else {
+						out = append(out, nil)
+					}
+				}
+			}
+		case *ast.ValueSpec:
+			for i, id := range s.Names {
+				if id.Name == name && i < len(s.Values) {
+					out = append(out, s.Values[i])
+				}
+			}
+		}
+		return true
+	})
+	return out
+}
+
+func paramIndex(f *fn, name string) int {
+	for i, p := range f.params {
+		if p == name {
+			return i
+		}
+	}
+	return -1
+}
+
+// eval: the alternatives an expression may denote, in the context of function f
+func eval(f *fn, e ast.Expr, depth int) []sym {
+	if e == nil || depth > 6 {
+		return []sym{unk("untraced")}
+	}
+	if s, ok := strLit(e); ok {
+		return []sym{conc(s)}
+	}
+	switch x := e.(type) {
+	case *ast.ParenExpr:
+		return eval(f, x.X, depth)
+	case *ast.UnaryExpr:
+		if x.Op == token.AND {
+			return eval(f, x.X, depth)
+		}
+	case *ast.SelectorExpr:
+		if id, ok := x.X.(*ast.Ident); ok {
+			if p, ok := f.imports[id.Name]; ok && paramIndex(f, id.Name) < 0 {
+				return []sym{conc(strings.TrimPrefix(p, modPrefix) + "." + x.Sel.Name)}
+			}
+		}
+	case *ast.Ident:
+		if x.Name == "nil" {
+			return []sym{conc("nil")}
+		}
+		if i := paramIndex(f, x.Name); i >= 0 {
+			return []sym{{param: i}}
+		}
+		if f.decl != nil && f.decl.Body != nil {
+			if as := assignments(f, x.Name); len(as) > 0 {
+				var out []sym
+				for _, a := range as {
+					out = append(out, eval(f, a, depth+1)...)
+				}
+				return out
+			}
+		}
+		if pi := pkgs[f.pkg]; pi != nil {
+			if init, ok := pi.consts[x.Name]; ok {
+				return eval(pi.cfile[x.Name], init, depth+1)
+			}
+		}
+	}
+	return []sym{unk(exprText(e))}
+}
+
+// evalMethod: the method names packed into a data expression
+func evalMethod(f *fn, e ast.Expr, depth int) []sym {
+	if e == nil || depth > 6 {
+		return []sym{unk("untraced-data")}
+	}
+	switch x := e.(type) {
+	case *ast.ParenExpr:
+		return evalMethod(f, x.X, depth)
+	case *ast.CallExpr:
+		if se, ok := x.Fun.(*ast.SelectorExpr); ok && se.Sel.Name == "Pack" && len(x.Args) > 0 {
+			return eval(f, x.Args[0], depth+1)
+		}
+	case *ast.Ident:
+		if i := paramIndex(f, x.Name); i >= 0 {
+			return []sym{{param: i, data: true}}
+		}
+		if as := assignments(f, x.Name); len(as) > 0 {
+			var out []sym
+			for _, a := range as {
+				out = append(out, evalMethod(f, a, depth+1)...)
+			}
+			return out
+		}
+	}
+	return []sym{unk("data:" + exprText(e))}
+}
+
+// substitute a callee-level symbol by the caller's actual arguments
+func subst(caller *fn, s sym, args []ast.Expr, variadicFrom int) []sym {
+	if s.param < 0 {
+		return []sym{s}
+	}
+	if s.param >= len(args) || (variadicFrom >= 0 && s.param >= variadicFrom) {
+		return []sym{unk("variadic-or-missing-argument")}
+	}
+	if s.data {
+		return evalMethod(caller, args[s.param], 0)
+	}
+	return eval(caller, args[s.param], 0)
+}
+
+func resolveCallee(caller *fn, name string) ([]*fn, bool) {
+	defs := funcs[name]
+	var same []*fn
+	for _, d := range defs {
+		if d.pkg == caller.pkg {
+			same = append(same, d)
+		}
+	}
+	if len(same) > 0 {
+		return same[:1], false
+	}
+	if len(defs) == 1 {
+		return defs, false
+	}
+	if len(defs) > 1 {
+		return defs, true
+	}
+	return nil, false
+}
+
+type entry struct {
+	from, target, method string
+	site                 string
+}
+
+// effects of the calls inside f, in terms of f's parameters
+func effectsOf(f *fn) []effect {
+	var out []effect
+	ast.Inspect(f.decl.Body, func(nd ast.Node) bool {
+		ce, ok := nd.(*ast.CallExpr)
+		if !ok {
+			return true
+		}
+		name := ""
+		switch fu := ce.Fun.(type) {
+		case *ast.SelectorExpr:
+			name = fu.Sel.Name
+		case *ast.Ident:
+			name = fu.Name
+		}
+		if name == "" {
+			return true
+		}
+		if name == primitive {
+			if len(ce.Args) != 4 {
+				out = append(out, effect{unk("arity"), unk("arity"), unk("arity")})
+				return true
+			}
+			for _, fr := range eval(f, ce.Args[1], 0) {
+				for _, tg := range eval(f, ce.Args[2], 0) {
+					for _, m := range evalMethod(f, ce.Args[3], 0) {
+						out = append(out, effect{fr, tg, m})
+					}
+				}
+			}
+			return true
+		}
+		callees, ambiguous := resolveCallee(f, name)
+		for _, c := range callees {
+			if len(c.summary) == 0 || c == f {
+				continue
+			}
+			if ambiguous {
+				a := unk("ambiguous:" + name)
+				out = append(out, effect{a, a, a})
+				break
+			}
+			variadicFrom := -1
+			if ce.Ellipsis == token.NoPos {
+				// a variadic parameter of the callee collects several arguments: not traced individually
+				if n := len(c.decl.Type.Params.List); n > 0 {
+					if _, ok := c.decl.Type.Params.List[n-1].Type.(*ast.Ellipsis); ok {
+						variadicFrom = len(c.params) - 1
+					}
+				}
+			}
+			for _, e := range c.summary {
+				for _, fr := range subst(f, e.from, ce.Args, variadicFrom) {
+					for _, tg := range subst(f, e.target, ce.Args, variadicFrom) {
+						for _, m := range subst(f, e.method, ce.Args, variadicFrom) {
+							out = append(out, effect{fr, tg, m})
+						}
+					}
+				}
+			}
+		}
+		return true
+	})
+	return out
+}
+
+func symbolic(e effect) bool { return e.from.param >= 0 || e.target.param >= 0 || e.method.param >= 0 }
+
+func effKey(e effect) string {
+	k := func(s sym) string { return fmt.Sprintf("%d/%v/%s", s.param, s.data, s.text) }
+	return k(e.from) + "|" + k(e.target) + "|" + k(e.method)
+}
+
 func main() {
 	repo := flag.String("repo", "/repo", "repository root")
 	out := flag.String("out", "", "output directory (coq/theories/Gen)")
@@ -104,23 +350,28 @@ func main() {
 	if *out == "" {
 		die("-out required")
 	}
-	fset := token.NewFileSet()
-	var calls []call
-	for _, d := range dirs {
-		ents, err := os.ReadDir(filepath.Join(*repo, d))
-		if err != nil {
-			die("%v", err)
-		}
-		for _, e := range ents {
-			n := e.Name()
-			if e.IsDir() || !strings.HasSuffix(n, ".go") || strings.HasSuffix(n, "_test.go") || strings.HasSuffix(n, "_verif.go") {
-				continue
+	var all []*fn
+	for _, root := range []string{"x", "app"} {
+		filepath.Walk(filepath.Join(*repo, root), func(path string, info os.FileInfo, err error) error {
+			if err != nil {
+				die("%v", err)
 			}
-			rel := d + "/" + n
-			f, err := parser.ParseFile(fset, filepath.Join(*repo, rel), nil, 0)
+			rel, _ := filepath.Rel(*repo, path)
+			if info.IsDir() {
+				if b := info.Name(); b == "testing" || b == "simulation" || b == "cli" || b == "testdata" {
+					return filepath.SkipDir
+				}
+				return nil
+			}
+			n := info.Name()
+			if !strings.HasSuffix(n, ".go") || strings.HasSuffix(n, "_test.go") || strings.HasSuffix(n, "_verif.go") || strings.HasSuffix(n, ".pb.go") || strings.HasSuffix(n, ".pb.gw.go") {
+				return nil
+			}
+			f, err := parser.ParseFile(fset, path, nil, 0)
 			if err != nil {
 				die("%s: %v", rel, err)
 			}
+			dir := filepath.Dir(rel)
 			imports := map[string]string{}
 			for _, im := range f.Imports {
 				p, _ := strconv.Unquote(im.Path.Value)
@@ -130,79 +381,122 @@ func main() {
 				}
 				imports[name] = p
 			}
+			pi := pkgs[dir]
+			if pi == nil {
+				pi = &pkgInfo{consts: map[string]ast.Expr{}, cfile: map[string]*fn{}}
+				pkgs[dir] = pi
+			}
+			ctx := &fn{pkg: dir, file: rel, imports: imports}
 			for _, decl := range f.Decls {
-				fd, ok := decl.(*ast.FuncDecl)
-				if !ok || fd.Body == nil {
-					continue
+				switch d := decl.(type) {
+				case *ast.GenDecl:
+					if d.Tok != token.CONST && d.Tok != token.VAR {
+						continue
+					}
+					for _, sp := range d.Specs {
+						vs := sp.(*ast.ValueSpec)
+						for i, nm := range vs.Names {
+							if i < len(vs.Values) {
+								pi.consts[nm.Name] = vs.Values[i]
+								pi.cfile[nm.Name] = ctx
+							}
+						}
+					}
+				case *ast.FuncDecl:
+					if d.Body == nil {
+						continue
+					}
+					x := &fn{pkg: dir, name: d.Name.Name, file: rel, decl: d, imports: imports}
+					for _, fl := range d.Type.Params.List {
+						if len(fl.Names) == 0 {
+							x.params = append(x.params, "_")
+						}
+						for _, nm := range fl.Names {
+							x.params = append(x.params, nm.Name)
+						}
+					}
+					funcs[x.name] = append(funcs[x.name], x)
+					all = append(all, x)
 				}
-				// payload builders of this function
-				var packs []string
-				ast.Inspect(fd.Body, func(nd ast.Node) bool {
-					ce, ok := nd.(*ast.CallExpr)
-					if !ok {
-						return true
-					}
-					if se, ok := ce.Fun.(*ast.SelectorExpr); ok && se.Sel.Name == "Pack" && len(ce.Args) > 0 {
-						if s, ok := strLit(ce.Args[0]); ok {
-							packs = append(packs, s)
-						}
-					}
-					return true
-				})
-				ast.Inspect(fd.Body, func(nd ast.Node) bool {
-					ce, ok := nd.(*ast.CallExpr)
-					if !ok {
-						return true
-					}
-					se, ok := ce.Fun.(*ast.SelectorExpr)
-					if !ok {
-						return true
-					}
-					pos := fset.Position(ce.Pos())
-					switch se.Sel.Name {
-					case "CallPacket":
-						if len(ce.Args) < 2 {
-							die("%s:%d: CallPacket with %d arguments", rel, pos.Line, len(ce.Args))
-						}
-						m, ok := strLit(ce.Args[1])
-						if !ok {
-							m = "?" + exprText(fset, ce.Args[1]) // not a literal: recorded as such; the C06 obligation over this inventory then fails
-						}
-						calls = append(calls, call{rel, fd.Name.Name, 0, "", "", []string{m}})
-					case "CallEVMWithData":
-						if len(ce.Args) != 4 {
-							die("%s:%d: CallEVMWithData with %d arguments", rel, pos.Line, len(ce.Args))
-						}
-						ms := append([]string(nil), packs...)
-						sort.Strings(ms)
-						calls = append(calls, call{rel, fd.Name.Name, 1, resolve(fset, ce.Args[1], imports), resolve(fset, ce.Args[2], imports), ms})
-					case "CallEVM":
-						if len(ce.Args) < 5 {
-							die("%s:%d: CallEVM with %d arguments", rel, pos.Line, len(ce.Args))
-						}
-						m, ok := strLit(ce.Args[4])
-						if !ok {
-							m = "?" + exprText(fset, ce.Args[4])
-						}
-						calls = append(calls, call{rel, fd.Name.Name, 2, resolve(fset, ce.Args[2], imports), resolve(fset, ce.Args[3], imports), []string{m}})
-					}
-					return true
-				})
+			}
+			return nil
+		})
+	}
+	sort.SliceStable(all, func(i, j int) bool {
+		if all[i].file != all[j].file {
+			return all[i].file < all[j].file
+		}
+		return all[i].name < all[j].name
+	})
+
+	// fixpoint over wrapper summaries
+	for round := 0; round < 10; round++ {
+		changed := false
+		for _, f := range all {
+			if f.name == primitive {
+				continue
+			}
+			seen := map[string]bool{}
+			var sm []effect
+			for _, e := range effectsOf(f) {
+				if symbolic(e) && !seen[effKey(e)] {
+					seen[effKey(e)] = true
+					sm = append(sm, e)
+				}
+			}
+			if len(sm) != len(f.summary) {
+				changed = true
+			}
+			f.summary = sm
+		}
+		if !changed {
+			break
+		}
+	}
+	// entries: parameter-free effects
+	triples := map[[3]string][]string{}
+	for _, f := range all {
+		if f.name == primitive {
+			continue
+		}
+		for _, e := range effectsOf(f) {
+			if symbolic(e) {
+				continue
+			}
+			// an untraceable component is "?" in the term (its source text, which changes with any renaming, only in the comments)
+			norm := func(t string) string {
+				if strings.HasPrefix(t, "?") {
+					return "?"
+				}
+				return t
+			}
+			k := [3]string{norm(e.from.text), norm(e.target.text), norm(e.method.text)}
+			site := f.file + ":" + f.name
+			if k[0] == "?" || k[1] == "?" || k[2] == "?" {
+				site += fmt.Sprintf("{%s|%s|%s}", e.from.text, e.target.text, e.method.text)
+			}
+			dup := false
+			for _, s := range triples[k] {
+				if s == site {
+					dup = true
+				}
+			}
+			if !dup {
+				triples[k] = append(triples[k], site)
 			}
 		}
 	}
-	sort.SliceStable(calls, func(i, j int) bool {
-		a, b := calls[i], calls[j]
-		if a.file != b.file {
-			return a.file < b.file
+	var keys [][3]string
+	for k := range triples {
+		keys = append(keys, k)
+	}
+	sort.Slice(keys, func(i, j int) bool {
+		for x := 0; x < 3; x++ {
+			if keys[i][x] != keys[j][x] {
+				return keys[i][x] < keys[j][x]
+			}
 		}
-		if a.fn != b.fn {
-			return a.fn < b.fn
-		}
-		if a.kind != b.kind {
-			return a.kind < b.kind
-		}
-		return strings.Join(a.methods, ",") < strings.Join(b.methods, ",")
+		return false
 	})
 
 	// module address definitions
@@ -239,8 +533,7 @@ func main() {
 			if id, ok := as.Lhs[0].(*ast.Ident); !ok || id.Name != "ModuleAddress" {
 				return true
 			}
-			// common.BytesToAddress(authtypes.NewModuleAddress(<Const>).Bytes())
-			txt := exprText(fset, as.Rhs[0])
+			txt := exprText(as.Rhs[0])
 			const pre, post = "common.BytesToAddress(authtypes.NewModuleAddress(", ").Bytes())"
 			if !strings.HasPrefix(txt, pre) || !strings.HasSuffix(txt, post) {
 				die("%s: ModuleAddress defined by an expression outside the subset: %s", rel, txt)
@@ -262,19 +555,16 @@ func main() {
 		adefs = append(adefs, adef{filepath.Dir(rel), found})
 	}
 
+	// the Coq TERM contains only the normalised triples; the originating Go functions are in a separate comment block
 	var b bytes.Buffer
-	b.WriteString("(* GENERATED by tools/gotocoq/modcalls from x/xibc/keeper, x/xibc/core/packet/keeper, x/aggregate/keeper and the two\n   types/keys.go -- do not edit.\n   mod_calls: (file, enclosing function, kind (0 CallPacket, 1 CallEVMWithData, 2 CallEVM), from, target, methods) *)\nFrom Teleport Require Import Base.Bytes.\n\n")
-	b.WriteString("Definition mod_calls : list (bytes * bytes * nat * bytes * bytes * list bytes) :=\n  [")
-	for i, c := range calls {
+	b.WriteString("(* GENERATED by tools/gotocoq/modcalls from the non-test Go files under x/ and app/ and the two types/keys.go -- do not\n   edit.  mod_calls: normalised (from, target, method) triples of the EVM calls the keepers make, calls followed through\n   wrappers and helpers; \"?...\" = could not be traced. *)\nFrom Teleport Require Import Base.Bytes.\n\n")
+	b.WriteString("Definition mod_calls : list (bytes * bytes * bytes) :=\n  [")
+	for i, k := range keys {
 		if i > 0 {
 			b.WriteString(";\n   ")
 		}
-		var ms []string
-		for _, m := range c.methods {
-			ms = append(ms, coqBytes(m))
-		}
-		fmt.Fprintf(&b, "(* %s %s kind %d from %q target %q methods %v *)\n   (%s, %s, %d%%nat, %s, %s, [%s])", c.file, c.fn, c.kind, c.from, c.target, c.methods,
-			coqBytes(c.file), coqBytes(c.fn), c.kind, coqBytes(c.from), coqBytes(c.target), strings.Join(ms, "; "))
+		fmt.Fprintf(&b, "(* from %q target %q method %q *)\n   (%s, %s, %s)", k[0], k[1], k[2], coqBytes(k[0]), coqBytes(k[1]), coqBytes(k[2]))
+
 	}
 	b.WriteString("].\n\n(* (package directory, name of the module account whose address is that package's ModuleAddress) *)\n")
 	b.WriteString("Definition module_addresses : list (bytes * bytes) :=\n  [")
@@ -284,7 +574,13 @@ func main() {
 		}
 		fmt.Fprintf(&b, "(%s, %s) (* %s: %q *)", coqBytes(a.pkg), coqBytes(a.name), a.pkg, a.name)
 	}
-	b.WriteString("].\n")
+	b.WriteString("].\n\n(* where the resolved calls originate (information only; not part of any term):\n")
+	for _, k := range keys {
+		s := append([]string(nil), triples[k]...)
+		sort.Strings(s)
+		fmt.Fprintf(&b, "   SITE from %q target %q method %q in [%s]\n", k[0], k[1], k[2], inComment(strings.Join(s, " ")))
+	}
+	b.WriteString("*)\n")
 	path := filepath.Join(*out, "ModCallsGen.v")
 	if old, err := os.ReadFile(path); err == nil && bytes.Equal(old, b.Bytes()) {
 		return
